@@ -79,6 +79,30 @@ class LnLOracle:
                     worst = max(worst, c)
         return worst
 
+    def forward_bound(self, rows, tw):
+        """standard forward-error bound of the kernel's route: it inverts A^-1 by LU (relative error ~ eps*cond(A^-1)) and
+        forms chi^2 as the difference T1 - T2 of two large terms; bound = 10 * eps * cond(A^-1) * (|T1| + |T2|) (+ log-det term)"""
+        out = np.zeros(len(rows))
+        for k, i in enumerate(rows):
+            th = self.theta[i : i + 1]
+            M = self.p.M(th)[0]
+            mu, Lam = self.p.mu_Lam(th, tw)
+            var = self.p.var(th, tw)[0]
+            with np.errstate(all="ignore"):
+                Ainv = np.diag(1.0 / Lam[0]) + (M.T / var) @ M
+                B = np.diag(var) + (M * Lam[0]) @ M.T
+                r = M @ mu[0] - self.p.y
+                T1 = float(r @ (r / var))
+                w = M.T @ (r / var)
+                try:
+                    T2 = float(w @ np.linalg.solve(Ainv, w))
+                    cA, cB = np.linalg.cond(Ainv), np.linalg.cond(B)
+                except Exception:
+                    out[k] = np.inf
+                    continue
+            out[k] = 10 * 2.2e-16 * (cA * (abs(T1) + abs(T2)) + cB * len(var))
+        return out
+
     def classify(self, impl):
         """Returns list of per-row verdicts: ('pass',), ('finite-only',), ('untrusted',), ('known', (ids...)),
         ('violation', message, expected, observed)."""
@@ -138,9 +162,9 @@ class LnLOracle:
                 if not rows:
                     continue
                 rt, tt = self.ref(tw)
-                inst = self.instability(np.array(rows), tw)
+                inst = np.maximum(1000.0 * self.instability(np.array(rows), tw), self.forward_bound(rows, tw))
                 for k, i in enumerate(rows):
-                    if np.isfinite(inst[k]) and abs(impl[i] - rt[i]) <= 1000.0 * inst[k] + band1(rt[i]) and inst[k] > 0:
+                    if np.isfinite(inst[k]) and abs(impl[i] - rt[i]) <= inst[k] + band1(rt[i]) and inst[k] > 0:
                         verdicts[i] = ("known", tuple(sorted(tw)) + ("K5",))
                         remaining.discard(i)
         for i in remaining:
